@@ -131,7 +131,7 @@ def _cases(tier, seed):
                 cases.append(("depth1", {"model": rec, "prog": p}))
     # exhaustive depth 2: (model, alphabet, shapes)
     if tier == "quick":
-        plan = [("toy", "core", range(8)), ("chain", "core", (0, 3, 6))]
+        plan = [("toy", "core", range(8)), ("chain", "core", (0, 3))]
     else:
         plan = [("toy", "full", range(8)), ("chain", "full", range(8)), ("toy-min2", "core", range(8)),
                 ("toy-user", "core", range(8)), ("toy-fixed", "core", (0, 3, 4, 6))]
@@ -188,7 +188,7 @@ def _reduced(core):
 _RUNNER = None
 
 
-def _work(chunk):
+def _work(chunk, progress=None):
     """chunk: list of (index, family, case) -> dict"""
     global _RUNNER
     if _RUNNER is None:
@@ -198,6 +198,8 @@ def _work(chunk):
     e0 = _RUNNER.executions
     agg = {}
     for idx, fam, case in chunk:
+        if progress is not None:
+            progress(idx)
         res, found = _RUNNER.analyse(case)
         if res.get("invalid"):
             out["invalid"] += 1
@@ -225,55 +227,94 @@ def _work(chunk):
     return out
 
 
-def _pool_map(chunks, stall=120.0):
-    """apply _work to every chunk in a fork pool; a worker that dies or hangs loses only its chunk (reported)"""
+def _child(slot, tasks, results, stop, cur, started):
+    import queue
+    while True:
+        try:
+            cid, chunk = tasks.get(timeout=0.3)
+        except queue.Empty:
+            if stop.is_set():
+                return
+            continue
+
+        def progress(j, slot=slot):
+            cur[slot] = j
+            started[slot] = time.time()
+        try:
+            out = _work(chunk, progress)
+        except BaseException as e:  # noqa: a fault of the harness itself
+            out = {"harness_error": f"{type(e).__name__}: {e}"}
+        cur[slot] = -1
+        results.put((cid, out))
+
+
+def _pool_map(chunks, case_timeout=120.0):
+    """apply _work to every chunk in forked workers.  GLPK calls abort() on some inputs and a history may not terminate:
+    every worker publishes the index of the case it is running, so a worker that dies (or is killed after
+    `case_timeout` seconds in one case) costs exactly that case - reported as a failure - and the rest of its chunk is
+    queued again."""
     ctx = multiprocessing.get_context("fork")
-    results, lost = [], []
-    pool = ctx.Pool(min(PROCESSES, max(1, len(chunks))))
+    n = min(PROCESSES, max(1, len(chunks)))
+    tasks, results, stop = ctx.Queue(), ctx.Queue(), ctx.Event()
+    cur = ctx.Array("i", [-1] * n, lock=False)
+    started = ctx.Array("d", [0.0] * n, lock=False)
+    pending = {}
+    for cid, ch in enumerate(chunks):
+        pending[cid] = ch
+        tasks.put((cid, ch))
+    next_id = len(chunks)
+    procs = {}
+
+    def spawn(slot):
+        cur[slot] = -1
+        p = ctx.Process(target=_child, args=(slot, tasks, results, stop, cur, started), daemon=True)
+        p.start()
+        procs[slot] = p
+    for slot in range(n):
+        spawn(slot)
+    out, casualties = [], []
+    import queue
     try:
-        pending = {i: pool.apply_async(_work, (ch,)) for i, ch in enumerate(chunks)}
-        last = time.time()
         while pending:
-            done = [i for i, r in pending.items() if r.ready()]
-            for i in done:
-                r = pending.pop(i)
-                try:
-                    results.append(r.get())
-                except Exception as e:  # noqa: the harness itself failed on that chunk
-                    lost.append((i, f"harness error {type(e).__name__}: {e}"))
-                last = time.time()
-            if not done:
-                if time.time() - last > stall:
-                    for i in pending:
-                        lost.append((i, "worker died or hung"))
-                    break
-                time.sleep(0.02)
+            try:
+                cid, res = results.get(timeout=0.2)
+                if cid in pending:
+                    del pending[cid]
+                    out.append(res)
+                continue
+            except queue.Empty:
+                pass
+            now = time.time()
+            for slot, p in list(procs.items()):
+                hung = p.is_alive() and cur[slot] >= 0 and now - started[slot] > case_timeout
+                if hung:
+                    p.kill()
+                    p.join()
+                if hung or not p.is_alive():
+                    idx = cur[slot]
+                    why = "did not terminate within %.0f s" % case_timeout if hung else \
+                        "killed the interpreter (exit code %s; GLPK aborts on some inputs)" % p.exitcode
+                    if idx >= 0:
+                        # find the chunk that holds the case, report the case, queue the rest again
+                        for cid, ch in list(pending.items()):
+                            pos = [k for k, (i, _, _) in enumerate(ch) if i == idx]
+                            if pos:
+                                casualties.append((ch[pos[0]], why))
+                                rest = ch[:pos[0]] + ch[pos[0] + 1:]
+                                del pending[cid]
+                                if rest:
+                                    pending[next_id] = rest
+                                    tasks.put((next_id, rest))
+                                    next_id += 1
+                                break
+                    spawn(slot)
     finally:
-        pool.terminate()
-        pool.join()
-    return results, lost
-
-
-def _probe_single(case, timeout=30.0):
-    """run one case in its own process -> failure text | None"""
-    ctx = multiprocessing.get_context("fork")
-    q = ctx.Queue()
-
-    def target():
-        q.put(C.execute(case)["failure"])
-    p = ctx.Process(target=target)
-    p.start()
-    p.join(timeout)
-    if p.is_alive():
-        p.kill()
-        p.join()
-        return "the history did not terminate within %.0f s" % timeout
-    if p.exitcode != 0:
-        return "the interpreter died (exit code %s) while running the history" % p.exitcode
-    try:
-        return q.get(timeout=5)
-    except Exception:  # noqa
-        return "no result from the child process"
+        stop.set()
+        for p in procs.values():
+            p.join(timeout=2)
+            if p.is_alive():
+                p.kill()
+    return out, casualties
 
 
 def _group(found):
@@ -328,27 +369,30 @@ def _evaluate(cases, tier="quick"):
             uniq.append((fam, case))
     indexed = [(i, fam, case) for i, (fam, case) in enumerate(uniq)]
     # interleave so that every chunk has a similar mix (the memo of a worker still profits from shared cores)
-    nchunks = PROCESSES * (6 if tier == "quick" else 24)
+    nchunks = max(1, len(indexed) // 250)
     chunks = [indexed[i::nchunks] for i in range(nchunks)]
     chunks = [c for c in chunks if c]
-    results, lost = _pool_map(chunks)
+    results, casualties = _pool_map(chunks)
+    harness_errors = [r["harness_error"] for r in results if "harness_error" in r]
+    results = [r for r in results if "harness_error" not in r]
     by_family = {}
     for r in results:
         for k, v in r["by_family"].items():
             by_family[k] = by_family.get(k, 0) + v
     failures = _group([f for r in results for f in r["failures"]])
-    for i, why in lost:
-        # pin the case down
-        pinned = False
-        for idx, fam, case in chunks[i][:400]:
-            f = _probe_single(case)
-            if f and ("died" in f or "terminate" in f or "no result" in f):
-                failures.append({"key": "crash:" + C.render(case["prog"]), "failure": f, "replay": case})
-                pinned = True
-                break
-        if not pinned:
-            failures.append({"key": "harness:lost-chunk", "failure": f"chunk {i}: {why}; not reproduced case by case",
-                             "replay": {"chunk": i}})
+    crashes = {}
+    for (idx, fam, case), why in casualties[:12]:
+        kind = "crash:" if "killed" in why else "hang:"
+        case = _shrink_casualty(case, "killed" if kind == "crash:" else "terminate")
+        key = kind + C.render(case["prog"])
+        cj = json.dumps(case, sort_keys=True)
+        if key not in crashes or (len(cj), cj) < crashes[key][0]:
+            crashes[key] = ((len(cj), cj), why)
+    for key in sorted(crashes):
+        (_, cj), why = crashes[key]
+        failures.append({"key": key, "failure": "the history " + why, "replay": json.loads(cj)})
+    for e in sorted(set(harness_errors)):
+        failures.append({"key": "harness:error", "failure": e, "replay": {}})
     stats = {"evaluations": sum(r["n"] for r in results), "nontrivial": sum(r["nontrivial"] for r in results),
              "by_family": by_family, "raised": sum(r["raised"] for r in results),
              "shrink_exec": sum(r["shrink_exec"] for r in results), "failing": sum(r["failing"] for r in results),
@@ -394,8 +438,56 @@ def run(tier: str, seed: int) -> dict:
     }
 
 
+def _execute_in_child(case, timeout=120.0):
+    """run one case in a forked child (a history may kill the interpreter) -> failure text | None"""
+    ctx = multiprocessing.get_context("fork")
+    recv, send = ctx.Pipe(duplex=False)
+
+    def target():
+        send.send(C.execute(case)["failure"])
+        send.close()
+    p = ctx.Process(target=target, daemon=True)
+    p.start()
+    send.close()
+    got = None
+    if recv.poll(timeout):
+        try:
+            got = ("ok", recv.recv())
+        except EOFError:
+            got = None
+    p.join(2)
+    if p.is_alive():
+        p.kill()
+        p.join()
+        if got is None:
+            return "the history did not terminate within %.0f s" % timeout
+    if got is None:
+        return "the history killed the interpreter (exit code %s; GLPK aborts on some inputs)" % p.exitcode
+    return got[1]
+
+
+def _shrink_casualty(case, marker, budget=40):
+    """greedy shrinking of a history that kills the interpreter / does not terminate; every probe runs in a child"""
+    timeout = 120.0 if marker == "killed" else 20.0
+    cur = case
+    progress = True
+    while progress and budget > 0:
+        progress = False
+        for v in C._variants(cur["prog"]):
+            v = C._normalize(v)
+            if not C.ops_of(v) or budget <= 0:
+                continue
+            budget -= 1
+            cand = {"model": cur["model"], "prog": v}
+            got = _execute_in_child(cand, timeout)
+            if got and marker in got:
+                cur, progress = cand, True
+                break
+    return cur
+
+
 def replay(payload_replay: dict):
     """Re-run one recorded case against the current tree; return the failure text, or None if it passes."""
     if "prog" not in payload_replay:
         return None
-    return C.execute(payload_replay)["failure"]
+    return _execute_in_child(payload_replay)
